@@ -255,7 +255,7 @@ pub fn gen(ctx: &Ctx, rng: &mut Rng, out: &mut Vec<String>) {
     let cs = vcf::CallSet { cols: vec!["s0".into(), "s1".into(), "s2".into()], extras: false, wide: 0,
         recs: vec![vcf::Record { contig: "1".into(), pos: 5, gts: vec!["0/1".into(), "1/1".into(), "./.".into()], corrupt: None }, vcf::Record { contig: "1".into(), pos: 9, gts: vec!["0|0".into(), "0/1".into(), "1/1".into()], corrupt: None }] };
     let vtext = vcf::vcf_text(&cs);
-    for args in ["-s s0=A,s1=B,s0=B", "-s s0=A,s1=B,s2=C,s0=C,s1=C", "-s s0,s0,s0", "-s s0=A,s0", "-s =A", "-s s0=", "-s ,", "-s s9", "-s s0=A=B", "-s", "-S /nonexistent/file", "-p 1", "-p 0", "-p 9223372036854775808",
+    for args in ["-s s0=A,,s2=B", "-s ,s0=A", "-s s0=A,,s1=B,,s2=C", "-s s0,,s2", "-s s0=A,,s2=B --project-shape 3,3", "-s s0=,s1=X,s2", "-s s0=A,s1=B,s0=B", "-s s0=A,s1=B,s2=C,s0=C,s1=C", "-s s0,s0,s0", "-s s0=A,s0", "-s =A", "-s s0=", "-s ,", "-s s9", "-s s0=A=B", "-s", "-S /nonexistent/file", "-p 1", "-p 0", "-p 9223372036854775808",
                  "-p 1,1", "--project-shape 0", "--project-shape 8", "--project-shape 18446744073709551615", "-p 1 --strict", "-t 0", "-t 1", "-t 18446744073709551615", "-t -1", "--precision 65536", "--precision 0 -p 1",
                  "-s s0=A,s1=B -p 1", "-s s0=A,s1=B -p 1,1,1", "-s s0=A,s1=B --project-shape 1,1", "--strict"] {
         out.push(format!("pn.any\tcreate\t{args}\t{}", hex(&vtext)));
